@@ -278,7 +278,7 @@ func csvToSql(cfg importCfg, csvRow []string) ([]interface{}, error) {
 			continue
 		}
 		switch cfg.colTypes[i] {
-		case storage.TypeInt:
+		case storage.TypeInt, storage.TypeBigInt:
 			val, err := strconv.Atoi(csvRow[csvIdx])
 			if err != nil {
 				return sqlRow, err
